@@ -1,9 +1,17 @@
 import Yuiv.Drv.C01
 import Yuiv.Model.C19
+import Yuiv.Model.C19Inv
 /-
 Driver for C19:
   `khi <h> <t> <reduced> <bigraded> <base|_> <link> <e:τe …>` ↦ `signs=… <table of 𝔽₂-dimensions>` of the cone of 1+τ
   `ssi <d0> <d1> <w> <r>` ↦ the pair of s-type invariants;  `kh …` as in C01 (ordinary Khovanov homology reference).
+Involution data (code model `Model/C19Inv.lean`):
+  `invnew <base|_> <link> <e:fe …>`    ↦ `panic` | `ok E <e:inv_e(e) …> X <i:index of inv_x(crossing i) …> hyp=<b> ref=<b>`
+        (`hyp` = the decidable hypotheses of `inv_x_involutive_of_checks`; `ref` = inv_x is the first match, i.e. the
+         reference model's `InvLink.invX`, for every crossing)
+  `invmirror <base|_> <link> <e:fe …>` ↦ the same data read off `InvLink::mirror` of the result
+  `sinv <k> <4k labels>`               ↦ `panic` | `ok n=<edges> E … X …`   (`sinv_knot_from_code`)
+  `icube <reduced> <base|_> <link> <e:τe …>` ↦ `wf=<b>`: the hypothesis of the τ theorems (`icubeWf`) on the reference cube
 -/
 namespace Yuiv.Drv.C19
 open Yuiv.KhRef Yuiv.C19 Yuiv.Drv Yuiv.Drv.KhLink
@@ -21,8 +29,87 @@ def cellsStr (r : IResult) : String :=
       | some j => s!"{i},{j}:{d}"
       | none => s!"{i}:{d}"))
 
+def sortNat (l : List Nat) : List Nat := (l.toArray.qsort (· < ·)).toList
+
+def fOfPairs (ps : List (Nat × Nat)) (e : Nat) : Nat :=
+  match ps.find? (fun p => p.1 == e) with
+  | some p => p.2
+  | none => e
+
+/-- `E …` and `X …` of an involutive link as the harness prints them; `none` = some lookup panics -/
+def invDataStr (d : C19Inv.InvData) : Option String := do
+  let xs := d.link.toList
+  let es := sortNat (C19Inv.dedup (C19Inv.edgesOf xs))
+  let mut out := "E"
+  for e in es do
+    match d.invE e with
+    | .ok v => out := out ++ s!" {e}:{v}"
+    | _ => none
+  out := out ++ " X"
+  let mut i := 0
+  for x in xs do
+    match d.invX x with
+    | .ok y =>
+      let j ← C19Inv.xIndex d.link y
+      out := out ++ s!" {i}:{j}"
+    | _ => none
+    i := i + 1
+  return out
+
+def b01 (b : Bool) : String := if b then "1" else "0"
+
+/-- is `inv_x` the first match (the reference model's index-based `invX`) for every crossing? -/
+def refAgrees (d : C19Inv.InvData) : Bool :=
+  let il := d.toInvLink
+  (List.range d.link.size).all (fun i =>
+    match d.invX (d.link[i]!) with
+    | .ok y => il.invX i == C19Inv.xIndex d.link y
+    | _ => false)
+
+def invReq (mirror : Bool) (base : String) (rest : List String) : Option String := do
+  let base ← if base = "_" then some none else (parseNat? base).map some
+  let (l, rest) ← parseLink? rest
+  let ps ← rest.mapM parsePair?
+  let f := fOfPairs ps
+  match C19Inv.new l f base with
+  | .ok d =>
+    let d' := if mirror then d.mirror else d
+    match invDataStr d' with
+    | none => some "panic"
+    | some str =>
+      let xs := l.toList
+      let hyp := C19Inv.involB f (C19Inv.edgesOf xs) && C19Inv.sameCardB xs && C19Inv.distinctSetsB xs
+      some s!"ok {str} hyp={b01 hyp} ref={b01 (refAgrees d')}"
+  | _ => some "panic"
+
+def sinvReq (k : String) (rest : List String) : Option String := do
+  let k ← parseNat? k
+  let ns ← rest.mapM parseNat?
+  if ns.length != 4 * k then none
+  let code : List (Array Nat) := (List.range k).map (fun i => #[ns[4*i]!, ns[4*i+1]!, ns[4*i+2]!, ns[4*i+3]!])
+  match C19Inv.sinvFromCode code with
+  | .ok d =>
+    match invDataStr d with
+    | none => some "panic"
+    | some str => some s!"ok n={(C19Inv.dedup (C19Inv.edgesOf d.link.toList)).length} {str}"
+  | _ => some "panic"
+
+def icubeReq (red base : String) (rest : List String) : Option String := do
+  let red ← parseNat? red
+  let base ← if base = "_" then some none else (parseNat? base).map some
+  let (l, rest) ← parseLink? rest
+  let emap ← rest.mapM parsePair?
+  let il : InvLink := ⟨l, emap.toArray, base⟩
+  match mkICube il ⟨0, 0, red == 1⟩ with
+  | some ic => some s!"wf={b01 (C19Inv.icubeWf ic)}"
+  | none => some "err malformed"
+
 def handle (t : List String) : String :=
   match t with
+  | "invnew" :: base :: rest => (invReq false base rest).getD "bad-request"
+  | "invmirror" :: base :: rest => (invReq true base rest).getD "bad-request"
+  | "sinv" :: k :: rest => (sinvReq k rest).getD "bad-request"
+  | "icube" :: red :: base :: rest => (icubeReq red base rest).getD "bad-request"
   | "khi" :: h :: tt :: red :: bigr :: base :: rest =>
     let r : Option String := do
       let h ← parseInt? h; let tt ← parseInt? tt
